@@ -399,6 +399,8 @@ func (c *Check) randomSearch(firstWorker, procs, runsPer int) {
 				n = 400000
 			}
 			ses := &workerlib.Session{Mode: "soak", Corpus: c.CorpusP, Seed: c.Seed, Worker: i - procs, Runs: n, NSites: len(c.E.Report.Sites), DistinctPath: c.distinctPath()}
+			// soak workers 0-3 (the burst workers) alternate between an infinitely fast and a slow machine
+			ses.StepNS = []int64{1, 1, 1, 1, 1, 1, 1, 1, 1000, 10, 100, 1000, 10, 100, 1000, 1}[(i-procs)%16]
 			pr := runWorker(c.E, ses, 1, 30*time.Minute)
 			if err := procOK(pr); err != nil {
 				harnessFail("soak: %v", err)
@@ -526,12 +528,16 @@ func (c *Check) refToSession(rv *refViolation) (*workerlib.Violation, []workerli
 			last.Exp = common.B64(fresh)
 			// one caller, fair round-robin first; if the library starts goroutines of
 			// its own, how they interleave with the caller matters: try seeded policies
-			tries := 1
+			tries := 2
 			if c.E.Report.GoStmts > 0 {
-				tries = 25
+				tries = 26
 			}
 			for k := 0; k < tries; k++ {
-				if k > 0 {
+				if k == 1 {
+					// the policy of the sequential passes: the caller runs until it blocks
+					session[0].Policy = simrt.Policy{Kind: "seq", PoolMode: "lifo"}
+					session[0].Seed = 1
+				} else if k > 0 {
 					session[0].Policy = simrt.Policy{Kind: []string{"walk", "pct", "rr"}[k%3], P: []float64{0.01, 0.05, 0.2}[(k/3)%3], Depth: 2 + k%4, Quantum: int64(1 + k%7)}
 					session[0].Seed = uint64(k) * 7919
 				}
@@ -750,6 +756,24 @@ func (c *Check) smallVariant() bool {
 			for a := 0; a < 2; a++ {
 				r, _ := common.UnB64(p[2*a])
 				if r != c.Corpus.Ref[a][i] {
+					// Either the constant is not a mere capacity (a single fresh call already
+					// differs: reject the variant), or the shrunk structure makes a history
+					// dependence show within a few calls: that is a finding on the variant.
+					curVariant = "small"
+					solo := []workerlib.ExplicitRun{{Tasks: [][]workerlib.ECall{{{API: uint8(a), Idx: int32(i), In: common.B64(c.Corpus.In[i]), Exp: common.B64(c.Corpus.Ref[a][i])}}}, Policy: simrtPolicyExplicit(), Est: 1 << 30}}
+					prs := runExplicit(e, solo)
+					if prs.Summary != nil && len(prs.Violations) == 0 && len(ks) == len(knobs) {
+						rv := &refViolation{What: "with the capacity constants shrunk to 2 a sequential pass gives a different result", API: a,
+							Input: common.B64(c.Corpus.In[i]), A: c.Corpus.Ref[a][i], B: r, Idx: i, Kind: "fresh"}
+						if v, session := c.refToSession(rv); v != nil {
+							curVariant = ""
+							prx := &ProcResult{Session: &workerlib.Session{Mode: "explicit", Explicit: session, Variant: "small"}, Violations: []*workerlib.Violation{v}}
+							c.Agg.Violations = append(c.Agg.Violations, &foundViolation{V: v, Proc: prx, Stage: "small_variant", C: c})
+							c.Log("capacity-shrunk variant: result of %s(%q) depends on earlier calls (%d-call history)", apiName(a), trunc(c.Corpus.In[i], 40), len(session[0].Tasks[0]))
+							return false, "history dependence found on the variant (reported)"
+						}
+					}
+					curVariant = ""
 					return false, fmt.Sprintf("sequential result changes (%s(%q): %q vs %q)", apiName(a), trunc(c.Corpus.In[i], 40), r, c.Corpus.Ref[a][i])
 				}
 			}
@@ -765,6 +789,9 @@ func (c *Check) smallVariant() bool {
 		return true
 	}
 	c.Knob.Rejected = append(c.Knob.Rejected, fmt.Sprintf("all %d together: %s", len(knobs), why))
+	if c.Agg.nViol() > 0 {
+		return false
+	}
 	if len(knobs) == 1 {
 		delete(e.Variants, "small")
 		return false
@@ -988,5 +1015,82 @@ func (c *Check) sweepSolo() {
 			harnessFail("solo sweep: %v", err)
 		}
 		c.Agg.add("solo_sweep", pr)
+	})
+}
+
+// sweepColdFirst: one fresh process per (first input, API): the input is the
+// first library call of the process, then a fixed list of probes follows on
+// both APIs. First inputs: everything on which the tree panics, long inputs,
+// and a seeded sample of mutated / family / literal / grown inputs (sessions
+// are explicit, so a process does not load the corpus and costs ~10 ms).
+func (c *Check) sweepColdFirst() {
+	list := workerlib.ColdFirstList(c.Corpus)
+	seen := map[int32]bool{}
+	for _, i := range list {
+		seen[i] = true
+	}
+	var pool []int32
+	for i, f := range c.Corpus.Flags {
+		if f&(common.FMutated|common.FFamily|common.FLiteral|common.FFixture|common.FGrown) != 0 && f&(common.FLong|common.FPadded) == 0 && len(c.Corpus.In[i]) <= 200 {
+			pool = append(pool, int32(i))
+		}
+	}
+	n := 90
+	if c.Tier == "thorough" {
+		n = 2500
+	}
+	r := simrt.NewRNG(c.Seed ^ 0xc01d)
+	for k := 0; k < n && len(pool) > 0; k++ {
+		i := pool[r.Intn(len(pool))]
+		if !seen[i] {
+			seen[i] = true
+			list = append(list, i)
+		}
+	}
+	_, probes := workerlib.HistLists(c.Corpus)
+	if len(probes) > 48 {
+		// a fixed spread of probes keeps each process short
+		var sub []int32
+		for k := 0; k < len(probes); k += len(probes)/48 + 1 {
+			sub = append(sub, probes[k])
+		}
+		probes = sub
+	}
+	mk := func(api uint8, i int32) workerlib.ECall {
+		return workerlib.ECall{API: api, Idx: i, In: common.B64(c.Corpus.In[i]), Exp: common.B64(c.Corpus.Ref[api][i])}
+	}
+	total := len(list) * 2
+	parallel(total, c.NCPU, func(k int) {
+		x := list[k/2]
+		api := uint8(k & 1)
+		calls := []workerlib.ECall{mk(api, x)}
+		for _, a := range []uint8{api, 1 - api} {
+			for _, p := range probes {
+				calls = append(calls, mk(a, p))
+			}
+		}
+		run := workerlib.ExplicitRun{Tasks: [][]workerlib.ECall{calls}, Policy: simrt.Policy{Kind: "seq", PoolMode: "lifo"}, Seed: uint64(k), Est: 1 << 24}
+		ses := &workerlib.Session{Mode: "explicit", Explicit: []workerlib.ExplicitRun{run}, Worker: k}
+		pr := runWorker(c.E, ses, 1, 5*time.Minute)
+		if err := procOK(pr); err != nil {
+			harnessFail("cold-first sweep: %v", err)
+		}
+		c.Agg.add("cold_first_sweep", pr)
+	})
+}
+
+// sweepChains: long single-caller chains over all medium-sized inputs.
+func (c *Check) sweepChains() {
+	procs := 12
+	if c.Tier == "thorough" {
+		procs = 32
+	}
+	parallel(procs, c.NCPU, func(i int) {
+		ses := &workerlib.Session{Mode: "chain", Corpus: c.CorpusP, Seed: c.Seed, Worker: i, To: 1 << 30, SyncHeavy: c.SyncSeen, NSites: len(c.E.Report.Sites), DistinctPath: c.distinctPath()}
+		pr := runWorker(c.E, ses, 1, 15*time.Minute)
+		if err := procOK(pr); err != nil {
+			harnessFail("chain sweep: %v", err)
+		}
+		c.Agg.add("chain_sweep", pr)
 	})
 }
